@@ -98,6 +98,82 @@ fn build_real(e: &Entry) -> Result<Real, String> {
     })
 }
 
+struct CountSrc<'a> {
+    data: &'a [u8],
+    idx: usize,
+    pulled: &'a std::cell::Cell<usize>,
+}
+
+impl Iterator for CountSrc<'_> {
+    type Item = u8;
+    fn next(&mut self) -> Option<u8> {
+        let b = *self.data.get(self.idx)?;
+        self.idx += 1;
+        self.pulled.set(self.pulled.get() + 1);
+        Some(b)
+    }
+}
+
+/// Laziness witness: the `*_from_iter` entry point on a counting source must return the slice entry
+/// point's matches, with exactly `end` bytes pulled at each match and `len` at the final None.
+fn run_lazy(real: &Real, h: &[u8], method: &str) -> Result<(), String> {
+    let pulled = std::cell::Cell::new(0usize);
+    let r = catch_unwind(AssertUnwindSafe(|| -> Result<(), String> {
+        macro_rules! cmp {
+            ($a:expr, $b:expr) => {{
+                let mut a = $a;
+                let mut b = $b;
+                let mut n = 0;
+                loop {
+                    let x = a.next();
+                    let y = b.next();
+                    if x != y {
+                        return Err(format!("from_iter gives {x:?}, slice gives {y:?}"));
+                    }
+                    match x {
+                        Some(m) => {
+                            if pulled.get() != m.end() {
+                                return Err(format!("{} bytes pulled when the match ending at {} was returned", pulled.get(), m.end()));
+                            }
+                        }
+                        None => {
+                            if pulled.get() != h.len() {
+                                return Err(format!("{} of {} bytes pulled at the final None", pulled.get(), h.len()));
+                            }
+                            break;
+                        }
+                    }
+                    n += 1;
+                    if n > 4 * h.len() + 8 {
+                        return Err("iterator does not stop".into());
+                    }
+                }
+            }};
+        }
+        let src = CountSrc { data: h, idx: 0, pulled: &pulled };
+        match real {
+            Real::Bw(pma) => match method {
+                "ovl" => cmp!(pma.find_overlapping_iter_from_iter(src), pma.find_overlapping_iter(h)),
+                "nosuf" => cmp!(pma.find_overlapping_no_suffix_iter_from_iter(src), pma.find_overlapping_no_suffix_iter(h)),
+                _ => cmp!(pma.find_iter_from_iter(src), pma.find_iter(h)),
+            },
+            Real::Cw(pma) => {
+                let s = std::str::from_utf8(h).map_err(|_| "not utf8".to_string())?;
+                match method {
+                    "ovl" => cmp!(unsafe { pma.find_overlapping_iter_from_iter(src) }, pma.find_overlapping_iter(s)),
+                    "nosuf" => cmp!(unsafe { pma.find_overlapping_no_suffix_iter_from_iter(src) }, pma.find_overlapping_no_suffix_iter(s)),
+                    _ => cmp!(unsafe { pma.find_iter_from_iter(src) }, pma.find_iter(s)),
+                }
+            }
+        }
+        Ok(())
+    }));
+    match r {
+        Ok(x) => x,
+        Err(_) => Err("panic".into()),
+    }
+}
+
 fn run_real(real: &Real, npats: usize, h: &[u8], method: &str) -> Result<Vec<M>, String> {
     let cap = 4 * h.len() * npats.max(1) + 4;
     let r = catch_unwind(AssertUnwindSafe(|| -> Result<Vec<M>, String> {
@@ -141,6 +217,7 @@ pub fn main(args: &[String]) -> i32 {
     let text = std::fs::read_to_string(&args[0]).expect("plan");
     let maxlen: usize = args.get(1).map_or(5, |s| s.parse().unwrap());
     let entries = plan::parse(&text);
+    let lazy = std::env::var("VTOOL_WITNESS_LAZY").is_ok();
     std::panic::set_hook(Box::new(|_| {}));
     for e in &entries {
         let real = match build_real(e) {
@@ -207,6 +284,23 @@ pub fn main(args: &[String]) -> i32 {
                     h.extend_from_slice(&syms[i]);
                 }
                 for m in methods {
+                    if lazy {
+                        if *m == "lm" {
+                            continue;
+                        }
+                        if let Err(msg) = run_lazy(&real, &h, m) {
+                            println!(
+                                "{{\"automaton\":{},\"method\":{},\"haystack_hex\":\"{}\",\"haystack\":{},\"laziness\":{}}}",
+                                crate::jstr(&e.name),
+                                crate::jstr(&format!("{m}_from_iter")),
+                                plan::hex(&h),
+                                crate::jstr(&plan::show_bytes(&h)),
+                                crate::jstr(&msg)
+                            );
+                            return 1;
+                        }
+                        continue;
+                    }
                     let exp = oracle(e, &h, m);
                     let got = run_real(&real, e.pats.len(), &h, m);
                     let bad = match &got {
